@@ -80,6 +80,18 @@ STOP:
 	return nil
 }
 
+// route returns the route registered for the given method under exactly this pattern, or nil.
+func (r roots) route(method, pattern string) *Route {
+	index := r.methodIndex(method)
+	if index < 0 {
+		return nil
+	}
+	if n := r.search(r[index], pattern); n != nil && n.isLeaf() && n.route.pattern == pattern {
+		return n.route
+	}
+	return nil
+}
+
 // lookup  returns the node matching the host and/or path. If lazy is false, it parses and record into c, path segment according to
 // the route definition. In case of indirect match, tsr is true and n != nil.
 func (r roots) lookup(t *iTree, method, hostPort, path string, c *cTx, lazy bool) (n *node, tsr bool) {
